@@ -424,11 +424,30 @@ var rxCastPrefix = regexp.MustCompile(`(^|[|;{\n]|&&|->|=>)([ \t]*):[ \t]*[^\s|;
 // is where the block parser accepts one.
 func DropCastPrefix(line string) string { return rxCastPrefix.ReplaceAllString(line, "$1$2") }
 
-// DropParens removes every `(` and `)` that is not escaped.
+// DropParens removes every `(` and `)` that is not escaped. A `#` between
+// them (a comment for the block parser once it has split the statement) is
+// removed together with the text up to the closing parenthesis, so that it
+// does not hide the rest of the rewritten line from the tokenizer.
 func DropParens(line string) string {
 	var b strings.Builder
+	depth := 0
 	for i := 0; i < len(line); i++ {
-		if (line[i] == '(' || line[i] == ')') && (i == 0 || line[i-1] != '\\') {
+		esc := i > 0 && line[i-1] == '\\'
+		switch {
+		case line[i] == '(' && !esc:
+			depth++
+			continue
+		case line[i] == ')' && !esc:
+			if depth > 0 {
+				depth--
+			}
+			continue
+		case line[i] == '#' && !esc && depth > 0:
+			j := i
+			for j < len(line) && !(line[j] == ')' && line[j-1] != '\\') && line[j] != '\n' {
+				j++
+			}
+			i = j - 1
 			continue
 		}
 		b.WriteByte(line[i])
